@@ -88,6 +88,8 @@ pub struct Profile {
     /// avoid leaf types serde's internal Content buffer cannot deserialise (128-bit integers,
     /// integer/bool map keys): used where witnesses are DEserialised (C02)
     pub serde_buffer_safe: bool,
+    /// allow `#[ts(inline)]` of generics whose parameter default is a user type (known finding)
+    pub known_inline_default: bool,
 }
 
 impl Profile {
@@ -118,6 +120,7 @@ impl Profile {
             library_types: false,
             known_newtype_skip: false,
             serde_buffer_safe: false,
+            known_inline_default: false,
         }
     }
 }
@@ -331,6 +334,19 @@ impl Cx<'_> {
             && matches!(&td.body, Body::Enum(vs) if !vs.is_empty() && vs.iter().all(|v| matches!(v.body, VBody::Unit) && !v.skip && !v.untagged))
     }
 
+    fn mentions_generic_with_user_default(&self, ty: &TyExpr) -> bool {
+        match ty {
+            TyExpr::User(i, args) => {
+                self.types[*i].params.iter().any(|p| matches!(p.default, Some(TyExpr::User(..))))
+                    || args.iter().any(|a| self.mentions_generic_with_user_default(a))
+            }
+            TyExpr::Prim(_) | TyExpr::Param(_) | TyExpr::SelfRef(_) => false,
+            TyExpr::Option(t) | TyExpr::Vec(t) | TyExpr::Array(t, _) | TyExpr::Wrap(_, t) => self.mentions_generic_with_user_default(t),
+            TyExpr::Tuple(ts) => ts.iter().any(|t| self.mentions_generic_with_user_default(t)),
+            TyExpr::Map(k, v, _) => self.mentions_generic_with_user_default(k) || self.mentions_generic_with_user_default(v),
+        }
+    }
+
     fn gen_user(&mut self, t: &mut Tape, params: &[Param], depth: u32) -> Option<TyExpr> {
         if self.types.is_empty() {
             return None;
@@ -531,7 +547,11 @@ impl Cx<'_> {
         }
         // tuples cannot be inlined (ts-rs panics with "tuple cannot be inlined!": documented non-support)
         if mentions_user(&f.ty) && !contains_tuple(&f.ty) && t.pct(self.p.inline) {
-            f.inline = true;
+            // known finding (C03 import-unused-default-of-inlined-generic): inlining a generic type
+            // whose parameter default is a user type leaves an unused import behind
+            if self.p.known_inline_default || !self.mentions_generic_with_user_default(&f.ty) {
+                f.inline = true;
+            }
         }
         if named && t.pct(self.p.rename) {
             f.rename = Some(self.rename_string(t, local));
@@ -556,7 +576,7 @@ impl Cx<'_> {
             }
         }
         if t.pct(self.p.export_to) {
-            let dirs = ["", "models/", "models/sub/", "a.b/", "../up/", "deep/er/est/"];
+            let dirs = ["", "models/", "models/sub/", "a.b/", "../up/", "deep/er/est/", "models_v2/", "models_v2/sub/", "mod/"];
             let d = *t.pick(&dirs);
             attrs.export_to = Some(if t.pct(self.p.shared_files) {
                 format!("{d}{}", t.pick(&["shared.ts", "common.ts", "types.ts"]))
